@@ -176,7 +176,7 @@ CORPUS = [
     "ins ; @2 fm " + " ".join(FM2) + " ; @24 2op 2 5 5 4 4 0 ; @25 2op 2 4 4 3 3 5 ; @26 2op 2 7 7 5 5 -4",
     "ins ; @10 psg 1 4 6 8 10 12 13 14 15 ; @11 psg 15>10 ; @12 psg 15:10 15>0:100 l:40 15 14 13 ; @13 psg 15 14 / 13>0:7 ; @14 psg 0>14:7 | 15 10 5 0 5 10",
     "ins ; @m1 0 4 7 ; @m2 0>12:10 | V0:1:5 ; @m3 V0:0.5:3 ; @m4 0:10 | 0>1:5 1>-1:10 -1>0:5",
-    # float -> int16 overflow of the per-frame step (was undefined behaviour in add_pitch_node; an InputError since 87e2b57),
+    # float -> int16 overflow of the per-frame step (was undefined behaviour in add_pitch_node; an InputError since f788cbf),
     # the largest steps that still fit (+-127.99 semitones per frame), in every form
     "ins ; @m2 -127>127:1",
     "ins ; @m2 100>-100:1 0",
@@ -277,7 +277,7 @@ CORPUS = [
     "ins ; @m1 0>1:65281 ; @1 psg 15",
     # float vs exact-rational difference in a PSG slide (frame 3 is 0 in binary64, 1 in exact arithmetic)
     "ins ; @10 psg 0>1:7",
-    # PSG loop position above 255: was emitted as one byte (wrapped), an InputError since ba9074f; position 255 is the last
+    # PSG loop position above 255: was emitted as one byte (wrapped), an InputError since ff36345; position 255 is the last
     # accepted one, 256 the first rejected; sustain bytes count; without a loop mark any size is accepted; the error stops read_song;
     # the pitch twins are an InputError since 54bd60e
     "ins ; @1 psg " + " ".join(["15", "14"] * 130) + " | 3 2",
@@ -403,7 +403,7 @@ def limit_family(rng, tier):
 
 
 def psg_limit_family(rng, tier):
-    """PSG envelopes whose loop mark has 253..258 envelope bytes in front of it (the byte limit of fix ba9074f), built from
+    """PSG envelopes whose loop mark has 253..258 envelope bytes in front of it (the byte limit of fix ff36345), built from
     single values, merged runs (one byte per 15 frames), slides and sustain marks; with and without values behind the mark"""
     for nbytes in [253, 254, 255, 256, 257, 258, 300]:
         for form in ["singles", "runs", "sustains", "slides", "mixed", "no-loop", "loop-first", "two-loops"]:
@@ -462,7 +462,7 @@ def psg_limit_family(rng, tier):
 
 
 def steep_family(rng, tier):
-    """pitch nodes whose per-frame step is around the int16 limit (+-128 semitones per frame, fix 87e2b57): single nodes,
+    """pitch nodes whose per-frame step is around the int16 limit (+-128 semitones per frame, fix f788cbf): single nodes,
     nodes behind others, in the compact pass, the extended pass and under noextpitch, steps reached through the length"""
     spans = [(-64, 63), (-64, 64), (64, -64), (63, -64), (-127, 127), (127, -127), (-127, 0), (0, 127), (-100, 100), (100, -100),
              (-127, 1), (-126, 2), (0, -127)]
